@@ -17,6 +17,26 @@ add(_c('tmove', defines=['NDEBUG', 'VT_MOVE_NOEXCEPT=0'],
        model_defines={'MOVE_MAY_THROW': 1, 'ASSIGN_MOVE_MAY_THROW': 1, 'SWAP_MAY_THROW': 1},
        facts={'MOVE_NOEXCEPT': 0, 'COPYABLE': 1, 'RELOCATE_WITH_MOVE': 0, 'POCCA': 0, 'POCMA': 0, 'POCS': 0, 'ALWAYS_EQUAL': 0}))
 
+ALLOC_ONLY = ['svb_copy_assign__pcsvb', 'svb_copy_assign_default__pcsvb', 'svb_move_assign__psvb', 'svb_move_assign_default__psvb', 'svb_swap__psvb',
+              'svb_ctor__psvb', 'svb_ctor__psvb_pcA', 'svb_ctor__pcsvb', 'svb_ctor__pcsvb_pcA', 'sv_swap', 'sv_assign__psv', 'sv_assign__pcsv', 'sv_get_allocator']
+
+def _alloc_cfg(name, pocca, pocma, pocs, ae, **kw):
+    defs = ['NDEBUG', 'VT_POCCA=%d' % pocca, 'VT_POCMA=%d' % pocma, 'VT_POCS=%d' % pocs, 'VT_ALWAYS_EQUAL=%d' % ae]
+    md = {'ALLOC_ALWAYS_EQUAL': 1} if ae else {}
+    kw.setdefault('only', ALLOC_ONLY)
+    return _c(name, defines=defs, model_defines=md,
+              facts={'MOVE_NOEXCEPT': 1, 'COPYABLE': 1, 'RELOCATE_WITH_MOVE': 1, 'POCCA': pocca, 'POCMA': pocma, 'POCS': pocs, 'ALWAYS_EQUAL': ae}, **kw)
+
+# allocator-trait configurations (C07, C09): all-propagating, always-equal, and the single-trait ones
+add(_alloc_cfg('aprop', 1, 1, 1, 0))
+add(_alloc_cfg('aeq', 0, 0, 0, 1))
+add(_alloc_cfg('pocca', 1, 0, 0, 0))
+add(_alloc_cfg('pocma', 0, 1, 0, 0))
+add(_alloc_cfg('pocs', 0, 0, 1, 0))
+add(_alloc_cfg('pocca_pocma', 1, 1, 0, 0))
+add(_alloc_cfg('pocca_pocs', 1, 0, 1, 0))
+add(_alloc_cfg('pocma_pocs', 0, 1, 1, 0))
+
 def cfg_defines(cfg):
     d = ['-DCFG_CAP_BOUND=(1u<<30)', '-DCFG_ALLOC_MAX_BOUND=(1ul<<50)']
     if str(cfg['N']) == '0':
@@ -30,6 +50,6 @@ def cfg_defines(cfg):
     return d
 
 TIERS = {
-    'quick': ['main', 'tmove'],
-    'thorough': ['main', 'tmove'],
+    'quick': ['main', 'tmove', 'aprop', 'aeq', 'pocs'],
+    'thorough': ['main', 'tmove', 'aprop', 'aeq', 'pocs', 'pocca', 'pocma', 'pocca_pocma', 'pocca_pocs', 'pocma_pocs'],
 }
